@@ -145,7 +145,10 @@ int main(int argc, char** argv)
             why = std::string("exit ") + std::to_string(WEXITSTATUS(status));
         json c = json::parse(lines[shared->episode]);
         Out o;
-        o.obj().kv("e", "crash").kv("id", c.value("id", std::to_string(shared->episode))).kv("op", shared->opIndex).kv("why", why).end();
+        o.obj().kv("e", "crash").kv("id", c.value("id", std::to_string(shared->episode))).kv("op", shared->opIndex).kv("why", why);
+        if (c.contains("ops") && shared->opIndex >= 0 && shared->opIndex < static_cast<long>(c["ops"].size()))
+            o.raw("during", c["ops"][shared->opIndex].dump());
+        o.end();
         // the worker may have died in the middle of a line
         fputc('\n', out);
         emitLine(o.str());
